@@ -598,14 +598,14 @@ func rlWatched(c *suiteCtx, dir string) {
 		os.Symlink("..v2", filepath.Join(mount, "..data_tmp"))
 		os.Rename(filepath.Join(mount, "..data_tmp"), filepath.Join(mount, "..data"))
 		os.RemoveAll(filepath.Join(mount, "..v1"))
-		deadline := time.Now().Add(15 * time.Second)
+		deadline := time.Now().Add(40 * time.Second)
 		for time.Now().Before(deadline) && !served("carol") {
 			time.Sleep(50 * time.Millisecond)
 		}
 		c.casen("watch|symlinks", "")
 		c.count("watch:symlink-rotation")
 		if !served("carol") || served("bob") || !served("alice") {
-			c.violation("C20", "the authenticated-emails file is mounted through symlinks (Kubernetes Secret / ConfigMap layout) and was rotated by re-pointing ..data: 15 s later validations still answer by the old contents (the reload never happens)",
+			c.violation("C20", "the authenticated-emails file is mounted through symlinks (Kubernetes Secret / ConfigMap layout) and was rotated by re-pointing ..data: 40 s later validations still answer by the old contents (the reload never happens)",
 				map[string]interface{}{"added_address_accepted": served("carol"), "removed_address_still_accepted": served("bob"), "kept_address_accepted": served("alice")})
 		}
 	}
